@@ -317,16 +317,28 @@ class _An:
         self._lockers = None
         self._loggers = {}
 
+    def _rev(self, target):
+        """every function from which `target` is reachable through direct call edges"""
+        if target not in self._reach:
+            seen, todo = set(), [target]
+            while todo:
+                q = todo.pop()
+                if q in seen:
+                    continue
+                seen.add(q)
+                for e in self.cg.inn.get(q, []):
+                    if e.kind == 'direct' and e.src is not None and e.src.qname not in seen:
+                        todo.append(e.src.qname)
+            self._reach[target] = seen
+        return self._reach[target]
+
     def reaches(self, q, target):
-        k = (q, target)
-        if k not in self._reach:
-            self._reach[k] = q == target or target in self.cg.reachable([q], kinds={'direct'})
-        return self._reach[k]
+        return q in self._rev(target)
 
     def lockers(self):
         """functions that take the database lock themselves (directly or through callees)"""
         if self._lockers is None:
-            self._lockers = {q for q in self.prog.funcs if q != ACQ and self.reaches(q, ACQ)}
+            self._lockers = self._rev(ACQ) - {ACQ}
         return self._lockers
 
     def lockparams(self, f):
@@ -436,3 +448,507 @@ class _An:
         sym.out = sym.run(f.node, inits)
         self.runs[f.qname] = sym
         return sym
+
+
+# ---------------------------------------------------------------------------
+# symbolic path interpreter
+
+
+def _g(st, k):
+    for a, b in st:
+        if a == k:
+            return b
+    return None
+
+
+def _s(st, k, v):
+    s = {(a, b) for a, b in st if a != k}
+    if v is not None:
+        s.add((k, v))
+    return frozenset(s)
+
+
+def _valuelike(t):
+    """terms with value semantics: a mutating method call on a local bound to one re-binds the local"""
+    return t[0] in ('list', 'tuple', 'sorted', 'mut', 'comp') or (
+        t[0] == 'call' and t[1][0] == 'glob' and t[1][1] in WRAPPERS | {'external:filter', 'external:dict', 'external:map'}
+    )
+
+
+class _Sym(Flow):
+    def __init__(self, an, func, depth, stack):
+        super().__init__()
+        self.an = an
+        self.prog = an.prog
+        self.f = func
+        self.depth = depth
+        self.stack = stack
+        self.top = False
+        self.returns = set()
+        self.sites = {}  # id(call) -> (call, kind, set of (key term, value term, present, cands, lock))
+        self.stores = {}  # id(node) -> (node, set of (kind, base, idx, value, present, cands))
+        self.lock_events = {}  # (kind, id(node), lock state before, detail) -> node
+        self.db = {}  # id(call) -> (call, callee, set of lock states)
+        self.hazards = {}  # id(call) -> call evaluated with the lock held outside any try
+        self.nested = {}  # id(call) -> (call, callee Func, set of (lock state, passed terms))
+        self.cand_tests = {}
+        self.member_tests = {}
+        self._loops = {}
+        self._tcache = {}
+
+    # ------------------------------------------------------------ terms
+    def T(self, e, st):
+        k = (id(e), st)
+        r = self._tcache.get(k)
+        if r is None:
+            r = self._tcache[k] = self._T(e, st)
+        return r
+
+    def _frees(self, e, st, bound=()):
+        out = []
+        for n in sorted({x.id for x in ast.walk(e) if isinstance(x, ast.Name)} - set(bound)):
+            v = _g(st, n)
+            if v is not None:
+                out.append((n, v))
+        return tuple(out)
+
+    def _glob(self, e):
+        sym = self.prog.resolve_in(e, self.f)
+        if sym is None:
+            return ('glob', norm(e))
+        if sym.startswith('local:'):
+            return None
+        return ('glob', sym)
+
+    def _T(self, e, st):
+        if isinstance(e, ast.Constant):
+            return C(e.value)
+        if isinstance(e, ast.Name):
+            v = _g(st, e.id)
+            if v is not None:
+                return v
+            return self._glob(e) or ('unk', self.f.qname, e.id)
+        if isinstance(e, ast.Attribute):
+            parts = self.prog.dotted(e)
+            if parts and _g(st, parts[0]) is None:
+                g = self._glob(e)
+                if g is not None and not g[1].startswith('self.'):
+                    return g
+            return ('attr', self.T(e.value, st), e.attr)
+        if isinstance(e, ast.Call):
+            return self._call_term(e, st)
+        if isinstance(e, ast.Subscript):
+            return ('sub', self.T(e.value, st), self.T(e.slice, st))
+        if isinstance(e, ast.Slice):
+            return ('slice',) + tuple(None if x is None else self.T(x, st) for x in (e.lower, e.upper, e.step))
+        if isinstance(e, (ast.Tuple, ast.List)):
+            elts = []
+            for x in e.elts:
+                if isinstance(x, ast.Starred):
+                    t = self.T(x.value, st)
+                    if t[0] in ('tuple', 'list'):
+                        elts.extend(t[1])
+                    else:
+                        elts.append(('star', t))
+                else:
+                    elts.append(self.T(x, st))
+            return ('tuple' if isinstance(e, ast.Tuple) else 'list', tuple(elts))
+        if isinstance(e, ast.UnaryOp) and isinstance(e.op, ast.USub) and isinstance(e.operand, ast.Constant) and isinstance(e.operand.value, (int, float)):
+            return C(-e.operand.value)
+        if isinstance(e, ast.BinOp):
+            a, b = self.T(e.left, st), self.T(e.right, st)
+            if isinstance(e.op, ast.Add) and a[0] == b[0] and a[0] in ('list', 'tuple'):
+                return (a[0], a[1] + b[1])
+            return ('binop', type(e.op).__name__, a, b)
+        if isinstance(e, ast.Lambda):
+            a = e.args
+            names = [x.arg for x in a.posonlyargs + a.args + a.kwonlyargs]
+            pos = a.posonlyargs + a.args
+            dfl = tuple((p.arg, self.T(d, st)) for p, d in zip(pos[len(pos) - len(a.defaults):], a.defaults))
+            t = ('lambda', norm(e), dfl, self._frees(e.body, st, names))
+            self.an.nodes.setdefault(t, (e, self, st))
+            return t
+        if isinstance(e, (ast.ListComp, ast.GeneratorExp, ast.SetComp)):
+            bound = {x.id for g in e.generators for x in ast.walk(g.target) if isinstance(x, ast.Name)}
+            t = ('comp', norm(e), self._frees(e, st, bound))
+            self.an.nodes.setdefault(t, (e, self, st))
+            return t
+        if isinstance(e, ast.NamedExpr):
+            return self.T(e.value, st)
+        return ('expr', type(e).__name__, norm(e), self._frees(e, st))
+
+    def _is_instance_expr(self, v):
+        if isinstance(v, (ast.Name, ast.Attribute)):
+            sym = self.prog.resolve_in(v, self.f)
+            if sym in self.prog.classes or sym in self.prog.modules:
+                return False
+        return True
+
+    def resolve_call(self, e, st):
+        """-> (callee Func, receiver term, bound argument terms) for a call to a repository function, else None"""
+        sym = self.prog.callee(e, self.f)
+        if not sym or sym.startswith(('local:', 'external:', 'dbimpl:')) or sym in self.prog.classes:
+            return None
+        g = self.prog.func_of(sym)
+        if g is None:
+            return None
+        if any(isinstance(a, ast.Starred) for a in e.args) or any(k.arg is None for k in e.keywords):
+            return g, None, None
+        params = g.params()
+        recv = None
+        if g.cls is not None and not g.is_staticmethod() and isinstance(e.func, ast.Attribute) and self._is_instance_expr(e.func.value):
+            recv = self.T(e.func.value, st)
+            params = params[1:]
+        a = g.node.args
+        allp = a.posonlyargs + a.args
+        dflt = dict(zip([x.arg for x in allp[len(allp) - len(a.defaults):]], a.defaults))
+        dflt.update({x.arg: d for x, d in zip(a.kwonlyargs, a.kw_defaults) if d is not None})
+        npos = len(allp) - (len(g.params()) - len(params))
+        if len(e.args) > npos and a.vararg is None:
+            return g, recv, None
+        bound = {}
+        for p, x in zip(params, e.args):
+            bound[p] = self.T(x, st)
+        for k in e.keywords:
+            if k.arg not in params or k.arg in bound:
+                return g, recv, None
+            bound[k.arg] = self.T(k.value, st)
+        for p in params:
+            if p not in bound:
+                d = dflt.get(p)
+                if isinstance(d, ast.Constant):
+                    bound[p] = C(d.value)
+                elif d is not None:
+                    bound[p] = ('default', g.qname, p)
+                else:
+                    return g, recv, None
+        return g, recv, tuple((p, bound[p]) for p in params)
+
+    def _call_term(self, e, st):
+        sym = self.prog.callee(e, self.f)
+        if sym == ACQ:
+            return LOCK
+        pos, kws, star = [], [], False
+        for a in e.args:
+            if isinstance(a, ast.Starred):
+                star = True
+                pos.append(('star', self.T(a.value, st)))
+            else:
+                pos.append(self.T(a, st))
+        for k in e.keywords:
+            if k.arg is None:
+                star = True
+                kws.append(('**', self.T(k.value, st)))
+            else:
+                kws.append((k.arg, self.T(k.value, st)))
+        bname = e.func.id if isinstance(e.func, ast.Name) and sym == 'external:' + e.func.id and _g(st, e.func.id) is None else None
+        if bname in ('list', 'tuple') and len(pos) == 1 and not kws and not star and pos[0][0] in ('list', 'tuple'):
+            return (bname, pos[0][1])
+        if bname == 'sorted' and len(pos) == 1 and not star and {k for k, _ in kws} <= {'key', 'reverse'}:
+            kw = dict(kws)
+            return ('sorted', pos[0], kw.get('key'), kw.get('reverse', C(False)))
+        if bname in ('max', 'min') and len(pos) == 1 and not star and {k for k, _ in kws} <= {'key'}:
+            return (bname, pos[0], dict(kws).get('key'))
+        if bname == 'reversed' and len(pos) == 1 and not kws and not star:
+            return ('mut', 'reverse', pos[0], ())
+        rc = self.resolve_call(e, st)
+        if rc is not None and rc[2] is not None:
+            g, recv, A = rc
+            if self.an.inlineable(g) and self.depth < 3 and g.qname not in self.stack:
+                s = self.an.summary(g, recv, A, self.depth + 1, self.stack)
+                if s is not None:
+                    return s
+            t = ('call', ('func', g.qname), recv, A)
+            self.an.origin.setdefault(t, (self.f, e))
+            return t
+        if sym in self.prog.classes:
+            F = ('glob', sym)
+        else:
+            F = self.T(e.func, st)
+        return ('call', F, None, tuple((str(i), t) for i, t in enumerate(pos)) + tuple(kws))
+
+    # ------------------------------------------------------------ statements
+    def _bind(self, target, vt, st, node):
+        if isinstance(target, ast.Name):
+            return _s(st, target.id, vt)
+        if isinstance(target, (ast.Tuple, ast.List)):
+            n = len(target.elts)
+            for i, t in enumerate(target.elts):
+                if isinstance(t, ast.Starred):
+                    st = self._bind(t.value, ('sub', vt, ('slice', C(i), None, None)), st, node)
+                elif vt[0] in ('tuple', 'list') and len(vt[1]) == n and not any(x[0] == 'star' for x in vt[1]):
+                    st = self._bind(t, vt[1][i], st, node)
+                else:
+                    st = self._bind(t, ('sub', vt, C(i)), st, node)
+            return st
+        if isinstance(target, ast.Subscript):
+            self._store('store', node, self.T(target.value, st), self.T(target.slice, st), vt, st)
+        elif isinstance(target, ast.Attribute):
+            self._store('attr-store', node, self.T(target.value, st), C(target.attr), vt, st)
+        return st
+
+    def _store(self, kind, node, base, idx, value, st):
+        self.stores.setdefault(id(node), (node, set()))[1].add((kind, base, idx, value, _g(st, '#present'), _g(st, '#cands')))
+
+    def on_stmt(self, s, st):
+        if isinstance(s, ast.Assign):
+            vt = self.T(s.value, st)
+            for t in s.targets:
+                st = self._bind(t, vt, st, s)
+        elif isinstance(s, ast.AnnAssign) and s.value is not None:
+            st = self._bind(s.target, self.T(s.value, st), st, s)
+        elif isinstance(s, ast.AugAssign):
+            vt = self.T(s.value, st)
+            if isinstance(s.target, ast.Name):
+                old = self.T(s.target, st)
+                if isinstance(s.op, ast.Add) and old[0] == vt[0] and old[0] in ('list', 'tuple'):
+                    st = _s(st, s.target.id, (old[0], old[1] + vt[1]))
+                else:
+                    st = _s(st, s.target.id, ('binop', type(s.op).__name__, old, vt))
+            else:
+                st = self._bind(s.target, ('binop', type(s.op).__name__, self.T(s.target, st), vt), st, s)
+        elif isinstance(s, ast.Delete):
+            for t in s.targets:
+                if isinstance(t, ast.Name):
+                    st = _s(st, t.id, None)
+                elif isinstance(t, ast.Subscript):
+                    self._store('del', s, self.T(t.value, st), self.T(t.slice, st), None, st)
+        return (st,)
+
+    def on_return(self, node, st):
+        self.returns.add(self.T(node.value, st) if node.value is not None else CNONE)
+        return (st,)
+
+    def on_with(self, item, st):
+        if item.optional_vars is not None:
+            for n in ast.walk(item.optional_vars):
+                if isinstance(n, ast.Name):
+                    st = _s(st, n.id, None)
+        return (st,)
+
+    def on_handler(self, h, st):
+        if h.name:
+            st = _s(st, h.name, None)
+        return (st,)
+
+    # ------------------------------------------------------------ loops
+    def _havoc_names(self, body):
+        """names whose value may grow from one iteration to the next (anything but re-binding to a constant)"""
+        out = set()
+        for s in body:
+            for n in walk_no_nested(s):
+                if isinstance(n, ast.Assign):
+                    const = isinstance(n.value, ast.Constant)
+                    for t in n.targets:
+                        for x in ast.walk(t):
+                            if isinstance(x, ast.Name) and isinstance(x.ctx, ast.Store) and not (const and x is t):
+                                out.add(x.id)
+                elif isinstance(n, (ast.AugAssign, ast.AnnAssign)) and isinstance(n.target, ast.Name):
+                    out.add(n.target.id)
+                elif isinstance(n, (ast.For, ast.comprehension)):
+                    out |= {x.id for x in ast.walk(n.target) if isinstance(x, ast.Name)}
+                elif isinstance(n, ast.NamedExpr):
+                    out.add(n.target.id)
+                elif isinstance(n, ast.withitem) and n.optional_vars is not None:
+                    out |= {x.id for x in ast.walk(n.optional_vars) if isinstance(x, ast.Name)}
+                elif isinstance(n, ast.Call) and isinstance(n.func, ast.Attribute) and n.func.attr in MUTATORS and isinstance(n.func.value, ast.Name):
+                    out.add(n.func.value.id)
+        return out
+
+    def _loop_no(self, node):
+        if id(node) not in self._loops:
+            loops = sorted(
+                (n for n in walk_no_nested(self.f.node) if isinstance(n, (ast.For, ast.While))), key=lambda n: (n.lineno, n.col_offset)
+            )
+            for i, n in enumerate(loops):
+                self._loops[id(n)] = i
+        return self._loops.get(id(node), -1)
+
+    def _havoc(self, st, names, node):
+        no = self._loop_no(node)
+        for n in names:
+            if _g(st, n) is not None:
+                st = _s(st, n, ('loopvar', n, no))
+        st = _s(_s(st, '#present', None), '#cands', None)
+        return st
+
+    def on_for(self, node, st):
+        st = self._havoc(st, self._havoc_names(node.body), node)
+        it = self.T(node.iter, st)
+        return (self._bind(node.target, ('elem', it, self._loop_no(node)), st, node),)
+
+    def on_for_done(self, node, st):
+        return (_s(_s(st, '#present', None), '#cands', None),)
+
+    def _s_For(self, s, states):
+        head = self.eval(s.iter, states)
+        its = {st: self.T(s.iter, st) for st in head}
+        if not head or not all(t[0] in ('list', 'tuple') and not any(x[0] == 'star' for x in t[1]) for t in its.values()):
+            return Flow._s_For(self, s, states)
+        # literal table: unroll (key levels computed in a loop over a table)
+        out = Out()
+        for st in head:
+            cur, brk = {st}, set()
+            for el in its[st][1]:
+                ent = {self._bind(s.target, el, c, s) for c in cur}
+                ob = self.block(s.body, ent)
+                out.ret |= ob.ret
+                out.exc |= ob.exc
+                brk |= ob.brk
+                cur = self._cap(ob.normal | ob.cont)
+                if not cur:
+                    break
+            if s.orelse:
+                out.absorb(self.block(s.orelse, cur), True)
+            else:
+                out.normal |= cur
+            out.normal |= brk
+        return out
+
+    def _s_While(self, s, states):
+        hv = self._havoc_names(s.body)
+        head = {self._havoc(st, hv, s) for st in states}
+        out, exits = Out(), set()
+        while True:
+            t, f = self.cond(s.test, head)
+            exits |= f
+            ob = self.block(s.body, t)
+            out.ret |= ob.ret
+            out.exc |= ob.exc
+            out.normal |= ob.brk
+            new = head | {self._havoc(x, hv, s) for x in ob.normal | ob.cont}
+            self._cap(new)
+            if new == head:
+                break
+            head = new
+        if s.orelse:
+            out.absorb(self.block(s.orelse, exits), True)
+        else:
+            out.normal |= exits
+        return out
+
+    # ------------------------------------------------------------ tests
+    def _truth(self, e, st):
+        if isinstance(e, ast.Name):
+            v = _g(st, e.id)
+            if v is None:
+                return None
+            if v[0] == 'const':
+                return bool(v[2])
+            if v[0] in ('lock', 'given'):
+                return True
+            return None
+        if isinstance(e, ast.Compare) and len(e.ops) == 1 and isinstance(e.ops[0], (ast.Is, ast.IsNot, ast.Eq, ast.NotEq)):
+            c = e.comparators[0]
+            if isinstance(c, ast.Constant) and c.value is None:
+                v = self.T(e.left, st)
+                neg = isinstance(e.ops[0], (ast.IsNot, ast.NotEq))
+                if v == CNONE:
+                    return not neg
+                if v[0] in ('lock', 'given', 'const', 'tuple', 'list'):
+                    return neg
+        return None
+
+    @staticmethod
+    def _emptiness_subject(e):
+        """X | len(X) | len(X) > 0 | len(X) != 0 | len(X) >= 1 | 0 < len(X)   (positive)
+        len(X) == 0 | len(X) < 1 (negative)   -> (X expr, positive?) else (None, None)"""
+
+        def ln(x):
+            if isinstance(x, ast.Call) and isinstance(x.func, ast.Name) and x.func.id == 'len' and len(x.args) == 1 and not x.keywords:
+                return x.args[0]
+            return None
+
+        if isinstance(e, (ast.Name, ast.Attribute)):
+            return e, True
+        if ln(e) is not None:
+            return ln(e), True
+        if isinstance(e, ast.Compare) and len(e.ops) == 1:
+            a, op, b = e.left, e.ops[0], e.comparators[0]
+            if ln(b) is not None and isinstance(a, ast.Constant):  # 0 < len(X): mirror
+                mirror = {ast.Lt: ast.Gt, ast.Gt: ast.Lt, ast.LtE: ast.GtE, ast.GtE: ast.LtE, ast.Eq: ast.Eq, ast.NotEq: ast.NotEq}
+                a, b, op = b, a, mirror.get(type(op), type(None))()
+            if ln(a) is not None and isinstance(b, ast.Constant) and isinstance(b.value, int) and not isinstance(b.value, bool):
+                k = b.value
+                if (isinstance(op, (ast.Gt, ast.NotEq)) and k == 0) or (isinstance(op, ast.GtE) and k == 1):
+                    return ln(a), True
+                if (isinstance(op, (ast.Eq, ast.LtE)) and k == 0) or (isinstance(op, ast.Lt) and k == 1):
+                    return ln(a), False
+        return None, None
+
+    def on_test(self, e, st):
+        t = self._truth(e, st)
+        if t is True:
+            return (st,), ()
+        if t is False:
+            return (), (st,)
+        if isinstance(e, ast.Compare) and len(e.ops) == 1 and isinstance(e.ops[0], (ast.In, ast.NotIn)):
+            coll = self.T(e.comparators[0], st)
+            if is_primekeys(coll):
+                k = self.T(e.left, st)
+                self.member_tests[id(e)] = e
+                yes, no = _s(st, '#present', ('yes', k)), _s(st, '#present', ('no', k))
+                return ((yes,), (no,)) if isinstance(e.ops[0], ast.In) else ((no,), (yes,))
+        subj, positive = self._emptiness_subject(e)
+        if subj is not None:
+            base = cand_base(self.T(subj, st))
+            if base is not None:
+                self.cand_tests[id(e)] = e
+                ne, em = _s(st, '#cands', ('nonempty', base)), _s(st, '#cands', ('empty', base))
+                return ((ne,), (em,)) if positive else ((em,), (ne,))
+        return (st,), (st,)
+
+    # ------------------------------------------------------------ calls
+    def on_call(self, call, st):
+        lock = _g(st, '#lock')
+        sym = self.prog.callee(call, self.f)
+        if sym == ACQ:
+            self.lock_events[('acquire', id(call), lock, None)] = call
+            return (_s(st, '#lock', 'held' if lock in ('free', None) else 'double'),)
+        if sym == REL:
+            a = self.T(call.args[0], st) if call.args else None
+            self.lock_events[('release', id(call), lock, a)] = call
+            return (_s(st, '#lock', 'released' if (lock == 'held' and a == LOCK) else 'bad-release'),)
+        rc = self.resolve_call(call, st)
+        g = rc[0] if rc else None
+        is_log = (
+            isinstance(call.func, ast.Attribute) and call.func.attr in LOG_METHODS and self.an.is_logger(call.func.value, self.f)
+        )
+        if self.top and lock == 'held' and not self._try and not is_log:
+            self.hazards[id(call)] = call
+        if g is not None and self.top:
+            if g.qname in self.an.lockers():
+                passed = tuple(sorted((p, t) for p, t in (rc[2] or ()) if p in self.an.lockparams(g)))
+                self.nested.setdefault(id(call), (call, g, set()))[2].add((lock, passed))
+            elif self.an.reaches(g.qname, RPC):
+                self.db.setdefault(id(call), (call, g, set()))[2].add(lock)
+        if g is not None and g.qname in (SETP, GETP) and rc[2] is not None:
+            a = dict(rc[2])
+            self.sites.setdefault(id(call), (call, 'set' if g.qname == SETP else 'get', set()))[2].add(
+                (a.get('key'), a.get('value'), _g(st, '#present'), _g(st, '#cands'), lock)
+            )
+        # mutating method calls
+        if isinstance(call.func, ast.Attribute) and call.func.attr in MUTATORS and g is None:
+            m = call.func.attr
+            recv = call.func.value
+            old = self.T(recv, st)
+            args = tuple(self.T(a, st) for a in call.args if not isinstance(a, ast.Starred))
+            if isinstance(recv, ast.Name) and _g(st, recv.id) is not None and _valuelike(old):
+                if m == 'sort' and not call.args and {k.arg for k in call.keywords} <= {'key', 'reverse'}:
+                    kw = {k.arg: self.T(k.value, st) for k in call.keywords}
+                    new = ('sorted', old, kw.get('key'), kw.get('reverse', C(False)))
+                elif m == 'append' and old[0] == 'list' and len(args) == 1:
+                    new = ('list', old[1] + args)
+                elif m == 'extend' and old[0] == 'list' and len(args) == 1 and args[0][0] in ('list', 'tuple'):
+                    new = ('list', old[1] + args[0][1])
+                else:
+                    new = ('mut', m, old, args)
+                st = _s(st, recv.id, new)
+            elif not (old[0] == 'glob' or is_log):
+                self._store('mutcall:' + m, call, old, args[0] if args else None, args[1] if len(args) > 1 else None, st)
+        elif g is None or not self.an.inlineable(g):
+            # an unknown callee may change a literal list handed to it
+            for a in call.args:
+                if isinstance(a, ast.Name) and (_g(st, a.id) or ('',))[0] == 'list':
+                    st = _s(st, a.id, ('mut', 'passed', _g(st, a.id), ()))
+        return (st,)
